@@ -688,6 +688,105 @@ pub fn record_editprobe(seed: u64, n: usize, out: &str, rep: &mut Report) {
     rec.finish(rep);
 }
 
+/// C01 / C16: the boundary catalogue -- every place the code does 64-bit or usize arithmetic on a
+/// number the user wrote: array sizes and subscripts around 2^31, 2^32, 2^63, 2^64 (alone, first,
+/// last, after a small axis), 19+ subscripts, line numbers and jump targets at the u64 extremes,
+/// loop bounds and exponents that overflow to infinity, seeds at and beyond the generator's
+/// modulus.  Each line is tried at the prompt and as a one-line program; the session must
+/// survive and remain usable.  (The model treats these numerals as Opaque: only monitors judge.)
+pub fn record_boundary(shard: u64, shards: u64, out: &str, rep: &mut Report) {
+    let mut rec = Rec::new(out);
+    let big = ["2147483647", "2147483648", "4294967295", "4294967296", "9223372036854775807", "9223372036854775808",
+               "18446744073709551615", "18446744073709551616", "99999999999999999999", "1844674407370955", "1844674407370956"];
+    let mut lines: Vec<String> = vec![];
+    for b in big {
+        lines.push(format!("DIM A({})", b));
+        lines.push(format!("DIM A({},{})", b, b));
+        lines.push(format!("DIM A(1,{})", b));
+        lines.push(format!("DIM A({},1)", b));
+        lines.push(format!("DIM A$(9999,{})", b));
+        lines.push(format!("DIM A(3,3,{})", b));
+        lines.push(format!("A({}) = 1", b));
+        lines.push(format!("PRINT A({})", b));
+        lines.push(format!("PRINT A(1,{})", b));
+        lines.push(format!("PRINT A$({},1)", b));
+        lines.push(format!("DIM A(2,2) : A(1,{}) = 1", b));
+        lines.push(format!("GOTO {}", b));
+        lines.push(format!("GOSUB {}", b));
+        lines.push(format!("IF 1 THEN {}", b));
+        lines.push(format!("FOR I = {} TO {} STEP {}", b, b, b));
+        lines.push(format!("FOR I = 1 TO {} : NEXT I", b));
+        lines.push(format!("PRINT 10 ^ {}", b));
+        lines.push(format!("PRINT {} * {} * {} * {} * {}", b, b, b, b, b));
+        lines.push(format!("PRINT INT({}) ; ABS(-{}) ; RND({})", b, b, b));
+        lines.push(format!("X = {} : PRINT A(X) : DIM B(X,X)", b));
+    }
+    for n in [4usize, 5, 18, 19, 20, 64, 300] {
+        lines.push(format!("PRINT A({})", vec!["1"; n].join(",")));
+        lines.push(format!("A({}) = 1", vec!["10"; n].join(",")));
+        lines.push(format!("DIM A({})", vec!["10"; n].join(",")));
+        lines.push(format!("DIM A({})", vec!["0"; n].join(",")));
+    }
+    lines.push("DIM A(10000)".into());
+    lines.push("DIM A(9999) : A(9999) = 1 : PRINT A(9999)".into());
+    lines.push("DIM A(99,99) : A(99,99) = 1 : PRINT A(99,99)".into());
+    lines.push("DIM A(99,100)".into());
+    lines.push("PRINT 1/0 ; A(1/0)".into());
+    lines.push("PRINT A(-1) ; A(-0.5) ; A(0.999)".into());
+    lines.push("PRINT 2^1024 ; -2^1024 ; 2^1024 - 2^1024".into());
+    lines.push("X = 2^1024 : PRINT A(X) : GOTO 10".into());
+    lines.push("X = 2^1024 - 2^1024 : PRINT A(X) ; INT(X) ; RND(X)".into());
+    lines.push("FOR I = 1 TO 2^1024 - 2^1024 : NEXT I".into());
+    let numbers = ["0", "00000000000000000000000010", "18446744073709551614", "18446744073709551615", "18446744073709551616", "99999999999999999999999999"];
+    let seeds = [0u64, 1, (1 << 33) - 1, 1 << 33, (1 << 33) + 1, 1 << 43, 11081109438221, 11081109438222, 1 << 44, 1 << 63, u64::MAX - 1, u64::MAX];
+    let mut run = 0u64;
+    let shards = shards.max(1);
+    let mut session = |rec: &mut Rec, calls: Vec<J>| {
+        run += 1;
+        if (run - 1) % shards != shard % shards {
+            return;
+        }
+        let run = run - 1;
+        let mut s = rec.reset(run, false, false, json!({"driver": "boundary"}));
+        for c in calls {
+            if s.dead || !s.legal(c["k"].as_str().unwrap_or("")) {
+                break;
+            }
+            rec.call(run, &mut s, c);
+            let mut guard = 0;
+            while !s.dead && s.mode() == "running" && guard < 300 {
+                rec.call(run, &mut s, call_simple("continue"));
+                guard += 1;
+            }
+            if !s.dead && s.mode() != "idle" {
+                rec.call(run, &mut s, call_simple("break"));
+            }
+        }
+        // still usable?
+        if !s.dead {
+            let ev = rec.call(run, &mut s, call_submit("PRINT 7"));
+            if ev["panic"] != true && !(ev["res"]["ok"] == true && ev["out"].as_array().map(|o| o.len()) == Some(1)) {
+                rec.monitor_hits.push(json!({"property": "C01", "class": "unusable_after_boundary_input", "features": {}, "replay": {"run": run, "event": ev}}));
+            }
+        }
+    };
+    for l in &lines {
+        session(&mut rec, vec![call_submit(l)]);
+        session(&mut rec, vec![call_submit(&format!("10 {}", l)), call_submit("RUN"), call_submit("LIST")]);
+        rep.count("boundary_lines");
+    }
+    for n in numbers {
+        session(&mut rec, vec![call_submit(&format!("{} PRINT 1", n)), call_submit("5 PRINT 0"), call_submit("RUN"), call_submit("LIST"), call_submit(n), call_submit("RUN")]);
+        session(&mut rec, vec![call_submit(&format!("{} GOTO {}", n, n)), call_submit("RUN")]);
+        rep.count("boundary_line_numbers");
+    }
+    for sd in seeds {
+        session(&mut rec, vec![call_randomize(sd), call_submit("PRINT RND(0) < 1 ; RND(1) < 1 ; RND(0) < 1"), call_submit("10 PRINT RND(1) >= 0 : PRINT RND(-1)"), call_submit("RUN")]);
+        rep.count("boundary_seeds");
+    }
+    rec.finish(rep);
+}
+
 fn fuzz_line(rng: &mut StdRng) -> String {
     const STMTS: &[&str] = &[
         "PRINT 1", "X = X + 1", "10 PRINT X", "20 GOTO 10", "30 INPUT A$", "40 STOP", "50 GOSUB 50", "10", "20", "RUN", "CONT", "LIST", "NEW",
